@@ -367,6 +367,11 @@ def _wl2pix_value(recs, form):
         return np.array(arrs, dtype=np.int64 if all(isint) else float)
     if form == "reversed":
         return [a[::-1].copy() for a in arrs]
+    if form == "slices":
+        # every calibration array is a slice (view) of one caller-owned float64 buffer
+        buf = np.concatenate(arrs)
+        cuts = np.cumsum([0] + [a.size for a in arrs])
+        return [buf[cuts[i]:cuts[i + 1]] for i in range(len(arrs))]
     return arrs
 
 
@@ -391,13 +396,15 @@ def build(kind, P, pool, form=None):
 
 def _build(kind, P, pool, form=None):
     if kind in ("spectrometer", "survey"):
-        return _S["Spectrometer"](_wl2pix_value(P["wavelength_to_pixel"], form), P["min_bins_per_pixel"], P["name"])
+        val = _S["last_container"] = _wl2pix_value(P["wavelength_to_pixel"], form)
+        return _S["Spectrometer"](val, P["min_bins_per_pixel"], P["name"])
     if kind == "czerny":
-        acc = _acc_value(P["accommodated_spectra"], form)
+        acc = _S["last_container"] = _acc_value(P["accommodated_spectra"], form)
         return _S["CzernyTurnerSpectrometer"](P["diffraction_order"], P["grating"], P["focal_length"], P["pixel_spacing"],
                                               P["diffraction_angle"], acc, P["min_bins_per_pixel"], P["name"])
     if kind == "polychromator":
-        return _S["Polychromator"](_filters_value(P["filters"], pool, form=form), P["min_bins_per_window"], P["name"])
+        val = _S["last_container"] = _filters_value(P["filters"], pool, form=form)
+        return _S["Polychromator"](val, P["min_bins_per_window"], P["name"])
     raise ValueError("unknown kind %r" % kind)
 
 
@@ -679,6 +686,7 @@ def _run(case, ctx):
         ctx.cls("filter-table:%s" % (_S["truth"][id(f)][3] if spec["type"] == "tabulated" else "trapezoid"))
     P = copy.deepcopy(case["init"])
     inst = build(kind, P, pool, form=case.get("init_form"))
+    owned = (_S["last_container"], case.get("init_form"))
     if case.get("init_form"):
         ctx.cls("input-form:" + case["init_form"])
     cname = type(inst).__name__
@@ -723,6 +731,8 @@ def _run(case, ctx):
             else:
                 setattr(inst, attr, value)
                 P[attr] = op["value"]
+                if attr == ARRAY_ATTR[kind]:
+                    owned = (value, op.get("form"))
                 ctx.mon("set_accepted")
                 accepted += 1
                 last_set = "set-" + attr
@@ -740,6 +750,10 @@ def _run(case, ctx):
             check_calibration(ctx, inst, cname, op["spectrum"], pool, "op %d" % step)
         else:
             raise ValueError("unknown op %r" % op)
+
+    if case.get("alias"):
+        alias_phase(ctx, case, kind, inst, cname, P, pool, owned, obs_names)
+        return
 
     # final differential on the live instrument
     fresh = build(kind, P, pool)
@@ -760,6 +774,169 @@ def _run(case, ctx):
                   monitor="pixels_echo", reported=_brief(got))
     if kind != "polychromator" and case.get("spectrum") is not None:
         check_calibration(ctx, inst, cname, case["spectrum"], pool, "final")
+
+
+# ----------------------------------------------------------------------------------------------
+# caller-owned containers: what the instrument was handed stays the caller's, the instrument stays the instrument's
+# ----------------------------------------------------------------------------------------------
+
+ARRAY_ATTR = {"spectrometer": "wavelength_to_pixel", "survey": "wavelength_to_pixel", "czerny": "accommodated_spectra",
+              "polychromator": "filters"}
+
+
+def _unlock(ctx, a, cname, attr):
+    """The caller's own array: if the instrument write-locked it, note it (outside the wording of C16) and unlock."""
+    if not a.flags.writeable:
+        ctx.skip("outside-wording:caller-array-made-read-only:%s.%s" % (cname, attr))
+        try:
+            a.flags.writeable = True
+        except ValueError:
+            return False
+    return True
+
+
+def _mutate_owned(ctx, kind, obj, how, pool, cname):
+    """In-place change of the container the caller handed to the instrument (no instrument API involved).
+    Returns the current contents as plain values, or None when the container is immutable."""
+    attr = ARRAY_ATTR[kind]
+    if attr == "wavelength_to_pixel":
+        d = float(how["shift"])
+        if isinstance(obj, np.ndarray):                       # rows of a 2-D buffer
+            if not _unlock(ctx, obj, cname, attr):
+                return None
+            obj += int(round(d)) if obj.dtype.kind == "i" else d
+        else:
+            done = False
+            bases = set()
+            for k in range(len(obj)):
+                a = obj[k]
+                if isinstance(a, np.ndarray):
+                    tgt = a.base if a.base is not None else a    # slices: change the buffer the views come from
+                    if id(tgt) in bases:
+                        continue
+                    bases.add(id(tgt))
+                    if not _unlock(ctx, tgt, cname, attr):
+                        continue
+                    tgt += int(round(d)) if tgt.dtype.kind == "i" else d
+                    done = True
+                elif isinstance(a, list):
+                    for j in range(len(a)):
+                        a[j] = a[j] + (int(round(d)) if isinstance(a[j], int) else d)
+                    done = True
+                elif isinstance(obj, list):                  # list of tuples: replace the item of the caller's list
+                    obj[k] = tuple(x + d for x in a)
+                    done = True
+            if not done:
+                return None
+        return [np.array(a, dtype=float) for a in obj]
+    if attr == "accommodated_spectra":
+        d = float(how["shift"])
+        if isinstance(obj, np.ndarray):
+            obj[:, 0] += int(round(d)) if obj.dtype.kind == "i" else d
+        elif isinstance(obj, list):
+            for item in obj:
+                item[0] = item[0] + d
+        else:
+            return None
+        return tuple((float(a), (int(b) if float(b) == int(b) else float(b))) for a, b in obj)
+    if attr == "filters":
+        if isinstance(obj, tuple):
+            return None
+        extra = pool[int(how["filter"]) % len(pool)]
+        if isinstance(obj, np.ndarray):
+            obj[int(how["index"]) % len(obj)] = extra
+        elif how["action"] == "append" or len(obj) < 2:
+            obj.append(extra)
+        elif how["action"] == "pop":
+            obj.pop(int(how["index"]) % len(obj))
+        else:
+            obj[int(how["index"]) % len(obj)] = extra
+        return list(obj)
+    raise ValueError(attr)
+
+
+def _build_with(kind, P, pool, current):
+    if kind in ("spectrometer", "survey"):
+        return _S["Spectrometer"](current, P["min_bins_per_pixel"], P["name"])
+    if kind == "czerny":
+        return _S["CzernyTurnerSpectrometer"](P["diffraction_order"], P["grating"], P["focal_length"], P["pixel_spacing"],
+                                              P["diffraction_angle"], current, P["min_bins_per_pixel"], P["name"])
+    return _S["Polychromator"](current, P["min_bins_per_window"], P["name"])
+
+
+def alias_phase(ctx, case, kind, inst, cname, P, pool, owned, obs_names):
+    """After the history: the caller changes, in place, the container it handed to the instrument (or writes into the
+    arrays a getter returned).  No setter is called, so the instrument's observables must still describe ONE
+    instrument: either the one built from the values as they were when set (the instrument copied its input) or --
+    at most -- the one built from the container's current contents (it kept a reference and follows it completely).
+    A mixture (stale caches next to new values, range not covering the reported pixels / filters) is the violation."""
+    al = case["alias"]
+    attr = ARRAY_ATTR[kind]
+    obj, form = owned
+    _S["where"] = "inplace-mutation-of-" + attr
+    if al["kind"] == "getter":
+        if kind == "polychromator":
+            ctx.skip("alias:getter-arrays-not-applicable")
+            return
+        wrote = False
+        for nm in ("wavelength_to_pixel", "wavelengths"):
+            for a in getattr(inst, nm):
+                ctx.mon("getter_write")
+                try:
+                    a[int(al["how"]["index"]) % a.size] += float(al["how"]["shift"])
+                    wrote = True
+                except ValueError:
+                    ctx.cls("getter-array-read-only")
+        label = "getter-array-written"
+        current = None
+        if not wrote:
+            label = "getter-array-write-refused"
+    else:
+        current = _mutate_owned(ctx, kind, obj, al["how"], pool, cname)
+        if current is None:
+            ctx.skip("alias:immutable-container:%s" % (form or "tuple"))
+            return
+        label = "caller-%s-mutated" % (form or "tuple")
+    ctx.cls("alias:%s:%s" % (attr, label))
+    names = list(case["final_order"])
+    try:
+        O = [observe(inst, nm, pool) for nm in names]
+    except InvariantBroken as e:
+        ctx.mon("alias_judged")
+        ctx.viol("alias:%s.%s:%s-changes-instrument" % (cname, attr, label),
+                 "after an in-place change of the %s (no setter called) the instrument violates '%s'" % (
+                     "array returned by a getter" if al["kind"] == "getter" else "container the caller had handed to it", e.clause),
+                 clause=e.clause, **e.detail)
+        return
+    A = [observe(build(kind, P, pool), nm, pool) for nm in names]
+    ctx.mon("alias_judged")
+    ctx.nontrivial()
+    same = lambda X, Y: all(x[0] == y[0] and _eq(x[1], y[1]) for x, y in zip(X, Y))
+    if same(O, A):
+        ctx.cls("alias-outcome:unaffected")
+        return
+    follows = []
+    if current is not None:
+        try:
+            fb = _build_with(kind, P, pool, current)
+        except ValueError:
+            fb = None
+        if fb is not None:
+            B = [observe(fb, nm, pool) for nm in names]
+            if same(O, B):
+                ctx.cls("alias-outcome:follows-container-consistently")
+                ctx.skip("alias:instrument-follows-caller-container-consistently:%s.%s" % (cname, attr))
+                return
+            follows = [nm for nm, o, a, b in zip(names, O, A, B) if not (o[0] == a[0] and _eq(o[1], a[1]))
+                       and (o[0] == b[0] and _eq(o[1], b[1]))]
+    changed = [nm for nm, o, a in zip(names, O, A) if not (o[0] == a[0] and _eq(o[1], a[1]))]
+    ctx.viol("alias:%s.%s:%s-changes-instrument" % (cname, attr, label),
+             "after an in-place change of the %s (no setter called) the instrument's observables are those of neither the "
+             "instrument built from the values as set nor of one built from the container's current contents" % (
+                 "array returned by a getter" if al["kind"] == "getter" else "container the caller had handed to it"),
+             changed=changed, follow_current_contents=follows, form=form,
+             mutated={nm: _brief(o) for nm, o in zip(names, O) if nm in changed},
+             as_set={nm: _brief(a) for nm, a in zip(names, A) if nm in changed})
 
 
 # ----------------------------------------------------------------------------------------------
@@ -1000,7 +1177,7 @@ def _gen_filter_idx(rng, npool):
     return [int(i) for i in rng.permutation(npool)[:k]]
 
 
-WL2PIX_FORMS = ["list", "tuple", "tuple-of-lists", "list-of-tuples", "int-arrays", "ndarray-2d"]
+WL2PIX_FORMS = ["list", "tuple", "tuple-of-lists", "list-of-tuples", "int-arrays", "ndarray-2d", "slices"]
 SEQ_FORMS = ["list", "tuple", "ndarray"]
 
 
@@ -1121,6 +1298,10 @@ def gen_case(rng, tier):
                     ops.append({"op": "set", "attr": "name", "value": _gen_name(rng)})
             else:
                 ops.append(_gen_reads(rng, obs))
+    if rng.random() < 0.3:
+        how = {"shift": [1.0, 3.0, 0.5, 12.0, 100.0][int(rng.integers(5))], "index": int(rng.integers(0, 1000)),
+               "filter": int(rng.integers(0, 1000)), "action": ["append", "pop", "replace"][int(rng.integers(3))]}
+        case["alias"] = {"kind": "getter" if (kind != "polychromator" and rng.random() < 0.25) else "caller", "how": how}
     case["ops"] = ops
     case["final_order"] = [obs[int(i)] for i in rng.permutation(len(obs))]
     return case
